@@ -193,8 +193,9 @@ Definition auto_labels (nq : nat) (insts : list ginst) : list label :=
 (* fifth guard (idle group): an observable acts non-trivially on a qubit whose label is None *)
 Definition idle_observable (l : list label) (support : list (list nat)) : bool :=
   existsb (existsb (fun q => is_none (nth q l None))) support.
+(* `if observables:` is a truthiness test: None and the empty list skip the idle-group check *)
 Definition pp_support_eff (i : pp_in) : list (list nat) :=
-  match pp_obs i with Some _ => pp_support i | None => [] end.
+  match pp_obs i with Some (_ :: _) => pp_support i | _ => [] end.
 Definition api_partition_problem (i : pp_in) : outcome :=
   andthen (refuse_if (match pp_labels i with Some l => negb (length l =? pp_nq i) | None => false end))
  (andthen (refuse_if (match pp_obs i with Some o => existsb (fun p => negb (fst p =? pp_nq i)) o | None => false end))
